@@ -65,16 +65,35 @@ def harness(ns, params):
         fnl = fresh_bool("final_newline")
         eng = fresh_bool("engine_numpy")
         split = fresh_int("split", 1, c)
+        ek = fresh_int("extra_kind", 0, 2)  # none / comment line / blank line, at a symbolic position
+        ep = fresh_int("extra_pos", 0, r)
         crlf_c, fnl_c, eng_c = bool(crlf), bool(fnl), ("numpy" if bool(eng) else "normal")
         hdr = DF.header(c, declared=d, wrap="YES" if wrap else "NO")
+        # declared curves after the index get symbolic one-character mnemonics (letters and digits:
+        # a mnemonic that reads like a column position must not attract that column)
+        names = ["DEPT"]
+        from symlas.values import concat
+
+        for k in range(1, d):
+            ch = SymStr.fresh("cn%d" % k, 1, fixed_len=1)
+            core.assume(z.Or(z.in_range_c(ch.chars[0], 48, 57), z.in_range_c(ch.chars[0], 65, 90)))
+            for prev in names[1:]:
+                core.assume(z.Not(ch.eq_expr(prev)))
+            names.append(ch)
+            hdr[[i for i, l in enumerate(hdr) if isinstance(l, str) and l.startswith(("GR.", "RHOB.", "NPHI.", "DT.", "CALI."))][0]] = concat([ch, ".U%d : c%d" % (k, k)])
         if wrap:
             sp = split.__index__()
             sect = ["~ASCII"] + wrapped_lines(r, c, sp)
+            core.assume(z.And(z.eq_i(ek.e, 0), z.eq_i(ep.e, 0)))
         else:
             core.assume(z.eq_i(split.e, 1))
-            sect = DF.build_data_section(r, c, pcap, "last", "none", 0, crlf_c, fnl_c)
+            ekc = ["none", "comment", "blank"][ek.__index__()]
+            epc = ep.__index__() if ekc != "none" else 0
+            if ekc == "none":
+                core.assume(z.eq_i(ep.e, 0))
+            sect = DF.build_data_section(r, c, pcap, "last", ekc, epc, crlf_c, fnl_c)
         dlines = [l for l in sect[1:]]
-        inputs = {"d": d, "c": c, "r": r, "wrap": bool(wrap), "split": split, "crlf": crlf, "final_newline": fnl, "engine_numpy": eng, "data_lines": dlines}
+        inputs = {"d": d, "c": c, "r": r, "wrap": bool(wrap), "split": split, "crlf": crlf, "final_newline": fnl, "engine_numpy": eng, "data_lines": dlines, "names": names[1:], "extra_kind": ek, "extra_pos": ep}
         cx = core.ctx()
         cx.inputs = inputs
         apply_exclusions(inputs)
@@ -101,11 +120,10 @@ def harness(ns, params):
             if len(cols) == n:
                 obl.append(("cells-bound-to-their-column", DF.same_cols(cols[:c], exp)))
                 obl.append(("curves-without-column-are-NaN", all(len(x) == r and all(v != v for v in x) for x in cols[c:])))
-                names = ["DEPT", "GR", "RHOB", "NPHI", "DT", "CALI"]
-                obl.append(("declared-curves-keep-order-and-metadata", all(cvs[k].original_mnemonic == names[k] and cvs[k].unit == ("M" if k == 0 else "U%d" % k) and cvs[k].descr == "c%d" % k for k in range(d))))
+                obl.append(("declared-curves-keep-order-and-metadata", z.And([z.And(SymStr.lift(cvs[k].original_mnemonic).eq_expr(names[k]), cvs[k].unit == ("M" if k == 0 else "U%d" % k), cvs[k].descr == "c%d" % k) for k in range(d)])))
                 obl.append(("surplus-columns-are-unnamed-curves", all(cvs[k].original_mnemonic == "" for k in range(d, n))))
         core.oblige_all(obl)
-        return {"observed": {"raised": None, "curves": cols, "names": [cv.original_mnemonic for cv in cvs]}}
+        return {"observed": {"raised": None, "curves": cols}}
 
     return run
 
@@ -116,6 +134,12 @@ def replay(i):
 
     d, c, r, wrap = i["d"], i["c"], i["r"], i["wrap"]
     hdr = DF.header(c, declared=d, wrap="YES" if wrap else "NO")
+    names = ["DEPT"] + list(i.get("names", []))
+    k = 1
+    for li, l in enumerate(hdr):
+        if l.startswith(("GR.", "RHOB.", "NPHI.", "DT.", "CALI.")) and k < len(names):
+            hdr[li] = "%s.U%d : c%d" % (names[k], k, k)
+            k += 1
     lines = hdr + ["~ASCII"] + list(i["data_lines"])
     nl = "\r\n" if i["crlf"] else "\n"
     text = nl.join(lines) + (nl if i["final_newline"] else "")
@@ -131,7 +155,6 @@ def replay(i):
     if not wrap:
         exp = DF.expected_matrix(r, c)
         n = max(c, d)
-        names = ["DEPT", "GR", "RHOB", "NPHI", "DT", "CALI"]
         if len(cols) != n:
             problems.append("%d curves, expected %d" % (len(cols), n))
         else:
@@ -144,7 +167,7 @@ def replay(i):
             if not all(las.curves[k].original_mnemonic == "" for k in range(d, n)):
                 problems.append("surplus curves are named %r" % ([cv.original_mnemonic for cv in las.curves[d:]],))
     return {"ok": not problems, "detail": ("; ".join(problems) + " engine=%s file %r" % (eng, text)) if problems else "ok",
-            "observed": {"raised": None, "curves": cols, "names": [cv.original_mnemonic for cv in las.curves]}}
+            "observed": {"raised": None, "curves": cols}}
 
 
 def validate():
